@@ -122,6 +122,10 @@ pub struct Core {
     last_fp: u64,
     window_start: u64,
     pub fair: bool,
+    /// consecutive fair decisions without progress
+    fair_idle: u64,
+    /// the decision being made is a fair one (recorded with the schedule)
+    pub last_fair: bool,
     pub preempts_in_api: u64,
     pub context_switches: u64,
     solo_counted: bool,
@@ -162,6 +166,8 @@ impl Core {
             last_fp: 0,
             window_start: 0,
             fair: false,
+            fair_idle: 0,
+            last_fair: false,
             preempts_in_api: 0,
             context_switches: 0,
             solo_counted: false,
@@ -176,22 +182,20 @@ impl Core {
     /// had before in this execution (positions, tags, epochs and the harness's own "call
     /// completed" marks are monotone, so real progress always produces a fresh value, while
     /// spinning, lock/unlock and pin/unpin cycles only revisit old ones). After half a
-    /// window without progress scheduling becomes uniformly random (fair); after a whole
-    /// window the run is declared livelocked.
-    fn livelock_check(&mut self, r: &rt::state::Rt) -> bool {
+    /// window without progress scheduling becomes uniformly random (fair); the run is
+    /// declared livelocked after another half window of *fair* decisions without progress.
+    /// Only fair decisions count, so an unfair stretch of a (shrunk) replayed schedule can
+    /// never manufacture a livelock.
+    fn note_progress(&mut self, r: &rt::state::Rt) {
         let fp = r.fp.get();
         if fp != self.last_fp {
             self.last_fp = fp;
             if self.ever_seen.insert(fp) {
                 self.window_start = self.step;
                 self.fair = false;
+                self.fair_idle = 0;
             }
         }
-        let idle = self.step - self.window_start;
-        if idle > self.cfg.livelock_window / 2 {
-            self.fair = true;
-        }
-        idle > self.cfg.livelock_window
     }
 
     fn choose(&mut self, runnable: &[usize], current: Option<usize>, is_yielding: bool) -> Option<usize> {
@@ -207,7 +211,8 @@ impl Core {
             self.end = End::StepCap;
             return None;
         }
-        if self.livelock_check(r) {
+        self.note_progress(r);
+        if self.fair_idle > self.cfg.livelock_window / 2 {
             self.end = End::Livelock;
             return None;
         }
@@ -218,19 +223,28 @@ impl Core {
         }
 
         // ---- replay
+        self.last_fair = false;
         if let Some(rec) = &self.cfg.replay {
             if self.replay_pos < rec.len() {
-                let want = rec[self.replay_pos] as usize;
+                let raw = rec[self.replay_pos];
+                let want = (raw & 0x7f) as usize;
                 self.replay_pos += 1;
-                if runnable.contains(&want) {
-                    return Some(want);
-                }
                 if self.cfg.replay_strict {
+                    if runnable.contains(&want) {
+                        if raw & 0x80 != 0 {
+                            self.last_fair = true;
+                            self.fair_idle += 1;
+                        }
+                        return Some(want);
+                    }
                     self.diverged_at = Some(self.step);
                     self.end = End::ReplayDiverged;
                     return None;
                 }
-                // tolerant: keep the current task, else the lowest runnable id
+                // tolerant (minimiser): decisions taken from a shrunk record are not fair
+                if runnable.contains(&want) {
+                    return Some(want);
+                }
                 return Some(match current {
                     Some(c) if runnable.contains(&c) => c,
                     _ => *runnable.iter().min().unwrap(),
@@ -241,15 +255,15 @@ impl Core {
                     self.end = End::ReplayDiverged;
                     return None;
                 }
-                return Some(match current {
-                    Some(c) if runnable.contains(&c) && !is_yielding => c,
-                    _ => {
-                        // round-robin after the record ends so that spinners cannot starve others
-                        let c = current.unwrap_or(0);
-                        *runnable.iter().find(|&&t| t > c).unwrap_or(runnable.iter().min().unwrap())
-                    }
-                });
+                // tolerant: after the record ends continue with fair (uniform) scheduling
+                self.last_fair = true;
+                self.fair_idle += 1;
+                return Some(runnable[self.rng.below(runnable.len() as u64) as usize]);
             }
+        }
+        let idle = self.step - self.window_start;
+        if idle > self.cfg.livelock_window / 2 {
+            self.fair = true;
         }
 
         // ---- solo mode: everybody else is frozen
@@ -312,6 +326,8 @@ impl Core {
         let cands = &cands[..n];
 
         let pick = if self.fair {
+            self.last_fair = true;
+            self.fair_idle += 1;
             cands[self.rng.below(n as u64) as usize]
         } else {
             match self.cfg.strategy {
@@ -403,7 +419,7 @@ impl Scheduler for SimSched {
                 return None;
             }
         };
-        core.record.push(pick as u8);
+        core.record.push(pick as u8 | if core.last_fair { 0x80 } else { 0 });
         rt::with(|r| {
             if let Some(c) = cur {
                 if c != pick {
@@ -428,7 +444,8 @@ impl Scheduler for SimSched {
     }
 }
 
-/// Run-length encoding of a schedule record: "t*n t*n ..."
+/// Run-length encoding of a schedule record: "t*n t*n ..."; a trailing `f` on the task id
+/// marks decisions taken in fair mode (they count towards the no-progress window).
 pub fn rle(rec: &[u8]) -> String {
     let mut out = String::new();
     let mut i = 0;
@@ -441,7 +458,7 @@ pub fn rle(rec: &[u8]) -> String {
         if !out.is_empty() {
             out.push(' ');
         }
-        out.push_str(&format!("{}*{}", t, j - i));
+        out.push_str(&format!("{}{}*{}", t & 0x7f, if t & 0x80 != 0 { "f" } else { "" }, j - i));
         i = j;
     }
     out
@@ -451,18 +468,29 @@ pub fn unrle(s: &str) -> Result<Vec<u8>, String> {
     let mut out = Vec::new();
     for tok in s.split_whitespace() {
         let mut it = tok.split('*');
-        let t: u8 = it.next().ok_or("bad rle")?.parse().map_err(|_| "bad rle task")?;
+        let head = it.next().ok_or("bad rle")?;
+        let (num, fair) = match head.strip_suffix('f') {
+            Some(n) => (n, 0x80u8),
+            None => (head, 0u8),
+        };
+        let t: u8 = num.parse().map_err(|_| "bad rle task")?;
         let n: usize = it.next().ok_or("bad rle")?.parse().map_err(|_| "bad rle count")?;
         for _ in 0..n {
-            out.push(t);
+            out.push(t | fair);
         }
     }
     Ok(out)
 }
 
+/// Segments of a record for the minimiser; fair marks are dropped (a shrunk schedule is
+/// replayed tolerantly, where only the continuation after its end is fair).
 pub fn segments(rec: &[u8]) -> Vec<(u8, usize)> {
     let mut out: Vec<(u8, usize)> = Vec::new();
     for &t in rec {
+        if t & 0x80 != 0 {
+            // the fair tail is regenerated by the tolerant replay
+            break;
+        }
         match out.last_mut() {
             Some((lt, n)) if *lt == t => *n += 1,
             _ => out.push((t, 1)),
